@@ -3,6 +3,7 @@ import Refine.Lemmas.ContainersHeap
 import Refine.Lemmas.ContainersAdj
 import Refine.Lemmas.ContainersAdjSeq
 import Refine.Lemmas.ContainersSortDbl
+import Refine.Lemmas.ContainersListDict
 import Mathlib.Data.Int.Order.Basic
 
 /-!
@@ -150,6 +151,95 @@ example : ([1, 3, 5, 7] : List Int).Pairwise (· ≤ ·) ∧ searchInt [1, 3, 5,
 example : shuffle 5 [3, 7, 100, 2] = [3, 4, 0, 2, 1] := by decide
 example : searchDbl (fun x y : Int => decide (x ≤ y)) (fun x y : Int => decide (x < y)) [0, 10, 20] 15 =
     some (Status.ok, 1) := by decide
+
+/-! ## ref_list.c -/
+
+/-- `ref_list_delete` (literal two-index compaction loop) removes EVERY occurrence of a present item -/
+theorem list_delete_present (l : RList) (item : Int) (h : item ∈ l.value) :
+    l.delete item = ({ l with value := l.value.filter (· ≠ item) }, Status.ok) :=
+  RList.delete_present l item h
+
+/-- … and reports `REF_NOT_FOUND`, leaving the list unchanged, iff there is none -/
+theorem list_delete_absent (l : RList) (item : Int) (h : item ∉ l.value) :
+    l.delete item = (l, Status.not_found) := RList.delete_absent l item h
+
+/-- `ref_list_contains` is membership -/
+theorem list_contains_iff_mem (l : RList) (item : Int) :
+    l.contains item = (Status.ok, decide (item ∈ l.value)) := RList.contains_spec l item
+
+/-- `ref_list_shift` (literal copy loop) pops the front; `ref_list_pop` the back; both fail with
+    `REF_EMPTY` on an empty list -/
+theorem list_shift_pop (l : RList) :
+    (l.value = [] → l.shift = (l, Status.failure, EMPTY) ∧ l.pop = (l, Status.failure, EMPTY)) ∧
+    (∀ x xs, l.value = x :: xs → l.shift = ({ l with value := xs }, Status.ok, x)) ∧
+    (∀ xs x, l.value = xs ++ [x] → l.pop = ({ l with value := xs }, Status.ok, x)) :=
+  ⟨fun h => ⟨RList.shift_nil l h, RList.pop_nil l h⟩, fun x xs h => RList.shift_spec l x xs h,
+   fun xs x h => RList.pop_spec l xs x h⟩
+
+/-- `RList ⊑ List Int`: for EVERY sequence of push / pop / shift / delete / erase / contains / deep-copy
+    starting from `ref_list_create`, the stored values, every returned status and every output value agree
+    with the abstract list (so `n` is exact), and `n ≤ max`, `max ∈ 10 + 1000·ℕ` -/
+theorem list_refines_List (ops : List RList.Op) :
+    (RList.run ops RList.create).1.value = (RList.specRun ops []).1 ∧
+    (RList.run ops RList.create).2 = (RList.specRun ops []).2 ∧
+    RList.Inv (RList.run ops RList.create).1 := RList.run_refines ops
+
+example : (RList.run [.push 5, .push 7, .push 5, .contains 7, .delete 5, .shift, .pop, .push 3] RList.create)
+    = ({ max := 10, value := [3] },
+       [(.ok, 0), (.ok, 0), (.ok, 0), (.ok, 1), (.ok, 0), (.ok, 7), (.failure, -1), (.ok, 0)]) := by decide
+
+/-! ## ref_dict.c -/
+
+/-- `ref_dict_create` satisfies the invariant: keys strictly increasing, values aligned, `n ≤ max` -/
+theorem dict_inv_create : RDict.Inv RDict.create := RDict.inv_create
+
+/-- `ref_dict_store` (downward scan + shift) keeps the invariant, overwrites or inserts, counts exactly -/
+theorem dict_store_spec (d : RDict) (h : RDict.Inv d) (k v : Int) :
+    (d.store k v).2 = Status.ok ∧ RDict.Inv (d.store k v).1 ∧
+    (∀ k', RDict.lookup (d.store k v).1 k' = if k' = k then some v else RDict.lookup d k') ∧
+    (d.store k v).1.n = if k ∈ d.key then d.n else d.n + 1 := RDict.store_spec h k v
+
+/-- `ref_dict_location` is total and correct on both branches (linear scan for `n ≤ 10`, else
+    `ref_sort_search_int`): the index of the key, or `REF_NOT_FOUND` with `REF_EMPTY` -/
+theorem dict_location_spec (d : RDict) (h : RDict.Inv d) (k : Int) :
+    (k ∈ d.key → ∃ p : Nat, d.location k = (Status.ok, (p : Int)) ∧ p < d.n ∧ d.key.getD p 0 = k) ∧
+    (k ∉ d.key → d.location k = (Status.not_found, EMPTY)) := RDict.location_spec h k
+
+/-- `ref_dict_value` returns the mapped value, or `REF_NOT_FOUND` leaving `*value` untouched -/
+theorem dict_value_spec (d : RDict) (h : RDict.Inv d) (k : Int) :
+    d.valueOf k = match RDict.lookup d k with
+      | some v => (Status.ok, some v)
+      | none => (Status.not_found, none) := RDict.valueOf_spec h k
+
+/-- `ref_dict_remove` of a present key: invariant kept, exactly that key unmapped, `n` decremented -/
+theorem dict_remove_present (d : RDict) (h : RDict.Inv d) (k : Int) (hk : k ∈ d.key) :
+    (d.remove k).2 = Status.ok ∧ RDict.Inv (d.remove k).1 ∧
+    (∀ k', RDict.lookup (d.remove k).1 k' = if k' = k then none else RDict.lookup d k') ∧
+    (d.remove k).1.n + 1 = d.n := RDict.remove_present h k hk
+
+/-- `ref_dict_remove` of an absent key: `REF_NOT_FOUND`, state unchanged -/
+theorem dict_remove_absent (d : RDict) (h : RDict.Inv d) (k : Int) (hk : k ∉ d.key) :
+    d.remove k = (d, Status.not_found) := RDict.remove_absent h k hk
+
+/-- the key array is the domain of the map; `ref_dict_has_key` / `ref_dict_has_value` are membership -/
+theorem dict_keys_are_domain (d : RDict) (h : RDict.Inv d) (k v : Int) :
+    (k ∈ d.key ↔ (RDict.lookup d k).isSome) ∧ d.hasKey k = decide (k ∈ d.key) ∧
+      d.hasValue v = decide (v ∈ d.value) :=
+  ⟨RDict.mem_key_iff_lookup h k, RDict.hasKey_spec d k, RDict.hasValue_spec d v⟩
+
+/-- `RDict ⊑ (Int → Option Int)`: for EVERY sequence of store / remove / deep-copy from `ref_dict_create`
+    the invariant holds, the represented map is the abstract one, and every status agrees
+    (remove is `REF_NOT_FOUND` exactly when the abstract map has no entry) -/
+theorem dict_refines_map (ops : List RDict.Op) :
+    RDict.Inv (RDict.run ops RDict.create) ∧
+    (∀ k, RDict.lookup (RDict.run ops RDict.create) k = RDict.specRun ops (fun _ => none) k) ∧
+    RDict.runStatus ops RDict.create = RDict.specRunStatus ops (fun _ => none) := RDict.run_refines ops
+
+example : RDict.run [.store 5 50, .store 2 20, .store 9 90, .store 5 55, .remove 2, .remove 7] RDict.create
+    = { max := 10, key := [5, 9], value := [55, 90] } := by decide
+-- the binary-search branch (`n > 10`)
+example : (RDict.run ((List.range 12).map fun i => RDict.Op.store (2 * i) i) RDict.create).location 14 =
+    (Status.ok, 7) := by decide
 
 /-! ## ref_adj.c -/
 
